@@ -20,6 +20,10 @@ fn main() {
         "C26child" => engines::c26::child_main(),
         "C21" => engines::c21::main(&args),
         "C21child" => engines::c21::child_main(),
+        "C14" => engines::c14::main(&args),
+        "C14child" => engines::c14::child_main(),
+        "C23" => engines::c23::main(&args),
+        "C23child" => engines::c23::child_main(),
         "C20" => engines::c20::main(&args),
         "C20child" => engines::c20::child_main(),
         other => {
